@@ -28,7 +28,7 @@ ASSUMPTIONS = [
 ]
 REQUIRED_CLASSES = ["cut-inside-group", "single-entry-chunk", "short-last-chunk", "one-chunk", "empty-chromosome", "trailing-empty-chromosome",
                     "mean", "bincount", "histogram", "count_kmers", "groupby", "groupby-str", "chunk_entries", "pileup", "mask-sum", "pileup-histogram", "window-mean", "joint", "streamable-map"]
-BOUNDS = {"quick": "all 128 chunkings of n = 8 entries x 12 computations x 10 datasets; 1000 sampled", "thorough": "all chunkings for n = 10 on 12 datasets; 5000 sampled (n up to 200)"}
+BOUNDS = {"quick": "all 128 chunkings of n = 8 entries x 15 computations x 10 datasets; 1000 sampled", "thorough": "all 512 chunkings for n = 10 on 12 datasets and all 2048 for n = 12 on 4 datasets; 19200 sampled (n up to 300)"}
 BUDGET_S = {"quick": 200, "thorough": 1500}
 
 COMPS = ["mean", "bincount", "histogram", "histogram-range", "count_kmers", "groupby", "groupby-str", "chunk_entries", "pileup", "mask-sum", "pileup-histogram",
@@ -351,6 +351,8 @@ def tasks(tier, seed):
     else:
         for o in range(16):
             out.append(("task_all_chunkings", dict(n=10, datasets=list(range(12)), stride=16, offset=o)))
-        for j in range(16):
-            out.append(("task_sampled", dict(n=320, seed=seed * 100 + j, nmax=200)))
+        for o in range(16):
+            out.append(("task_all_chunkings", dict(n=12, datasets=[1, 2, 3, 7], stride=16, offset=o)))
+        for j in range(32):
+            out.append(("task_sampled", dict(n=600, seed=seed * 100 + j, nmax=300)))
     return out
